@@ -27,10 +27,13 @@ type State struct {
 	locks  map[string]string // lock key -> Bool term (held)
 	ghost  map[string]Val
 	defers []deferEntry
+	// lockSnap is the state right after the most recent Lock() on this path
+	// (havoc + invariant); atlock(e) evaluates e there
+	lockSnap *State
 }
 
 func (s *State) clone() *State {
-	n := &State{guard: s.guard, epoch: s.epoch, alloc: s.alloc}
+	n := &State{guard: s.guard, epoch: s.epoch, alloc: s.alloc, lockSnap: s.lockSnap}
 	n.cells = make(map[*ssa.Alloc]Val, len(s.cells))
 	for k, v := range s.cells {
 		n.cells[k] = v
